@@ -131,6 +131,9 @@ func winValid(w *world, op string) bool {
 		}
 		return false
 	}
+	if op == "Y" {
+		return true
+	}
 	switch {
 	case op == "NT" || op == "NQ" || op == "S" || op == "Z" || strings.HasPrefix(op, "LL") || strings.HasPrefix(op, "CL") || strings.HasPrefix(op, "U"):
 		return false
@@ -144,6 +147,12 @@ func winRunOps(c *hx.Ctx, kind string, maxConn, maxReq uint32, next func(w *worl
 	defer w.close()
 	for step := 0; ; step++ {
 		op := next(w, step)
+		if op == "R^" {
+			// fixed scripts: the response to the youngest request in flight
+			if live := w.liveStreams(); len(live) > 0 {
+				op = fmt.Sprintf("R%d", live[len(live)-1])
+			}
+		}
 		if op == "" || !winValid(w, op) {
 			break
 		}
@@ -151,6 +160,10 @@ func winRunOps(c *hx.Ctx, kind string, maxConn, maxReq uint32, next func(w *worl
 		if strings.HasPrefix(op, "W") {
 			n, _ := strconv.Atoi(op[1:])
 			res = w.winReset(n)
+			w.settle()
+		} else if op == "Y" {
+			// NewStream with the connection closed between the creation of the stream and the pool's listener (winyield.go)
+			res = w.yieldNew()
 			w.settle()
 		} else {
 			res = w.apply(op)
@@ -205,6 +218,7 @@ func winGen(rng *hx.Rng, length, drainAt int) func(w *world, step int) string {
 		if step < drainAt {
 			add("N", 30)
 			add("NF", 4)
+			add("Y", 7)
 		}
 		for _, s := range live {
 			add(fmt.Sprintf("R%d", s), 12)
@@ -262,6 +276,13 @@ var winBoundary = [][]string{
 	{"E+", "N", "E-", "N", "L0", "N", "E+", "N", "E-", "N"},
 	{"N", "G0", "R0", "N", "W1", "R2", "N"},
 	{"N", "N", "L0", "RC1", "N", "N", "W2", "X3", "N", "R4", "R5"},
+	// pool9: a connection closed INSIDE NewStream (stream created, pool not yet listening): fresh dial, reused idle
+	// connection, max_requests+1 times in a row, with a request in flight elsewhere, with the breaker held elsewhere
+	{"Y", "N", "R^"},
+	{"N", "R0", "Y", "N", "R^"},
+	{"Y", "Y", "Y", "Y", "N", "R^"},
+	{"N", "Y", "R0", "Y", "N", "R^", "Y", "N"},
+	{"E+", "Y", "E-", "Y", "N", "R^", "N", "R^", "Y", "N", "R^"},
 }
 
 // RunWin emits win histories as cases of property prop.
